@@ -10,6 +10,7 @@ import XrsVerif.Proofs.ILViewshedSucc
 import XrsVerif.Proofs.ILViewshedInsProg
 import XrsVerif.Proofs.ILViewshedDel
 import XrsVerif.Proofs.ILViewshedLift
+import XrsVerif.Proofs.ILViewshedFixOrder
 import Mathlib.Tactic.Positivity
 /-
   C05 -- viewshed marks a cell visible exactly when the line-of-sight model says so.
@@ -80,7 +81,9 @@ import Mathlib.Tactic.Positivity
     * the generated status-tree routines (section 7, layer T3): `generated_query_decides` -- the program translated
       statement by statement from `_max_grad_in_status_struct` decides line of sight on every state whose arrays hold a
       well-linked BST without overestimates below the root; `generated_rotations_are_model_rotations`,
-      `generated_left_rotation_preserves`, `generated_small_routines`, `generated_tree_successor`.
+      `generated_left_rotation_preserves`, `generated_small_routines`, `generated_tree_successor`;
+      `generated_insert_is_model_insert` -- the program translated from `_insert_into_tree` (with `_rb_insert_fixup` and
+      its rotations inlined) leaves arrays holding the model's complete insertion `rbInsert`, which preserves `Rel` and `AugLe`.
       NOT in the model: the float value of a bearing (`atan`), of a gradient (`atan`, `sqrt`) -- compared by seam 0 / the
       geometric oracle of the correspondence; NaN terrains (outside the property's quantifier).
 -/
@@ -901,30 +904,44 @@ theorem generated_tree_successor (s : State F) (fuel n : Nat) (hv : VS s n) (hru
   obtain ⟨k, hk, hh⟩ := succPtr_head (s.fa "tree_vals") (s.ia "tree_nodes") i rl m rr ctx
   exact ⟨h1, k, h2.trans hk, hh⟩
 
-/-- **the generated `_insert_into_tree` up to `_rb_insert_fixup`** (PARTIAL: the fixup itself -- the recolouring loop with
-    its six inlined rotations, `ILVs.insFixup` -- is not covered): on arrays holding a non-empty BST image `t0`, with
-    `node_id` a fresh row and `value` the node `nn`, the program reaches the fixup with arrays that hold the model's
-    `leafInsert nn t0` (descent to the empty slot, creation and linking of the new red leaf, upward propagation of its
-    minimum gradient), well linked, no row twice -- hence (`leaf_insert_preserves` with no rebalancing) related to the
-    active list with the new cell added -/
-theorem generated_insert_reaches_leaf_insert (s : State (NV α)) (fuel n m : Nat) (hv : VS s n) (hm : VVal s m)
+/-- **the generated `_insert_into_tree` is the model's complete insertion** (the whole routine: descent, creation and
+    linking of the new red leaf, upward propagation of its minimum gradient, `_rb_insert_fixup` -- the recolouring loop
+    with its six inlined rotations, all cases and both mirror images -- and the blackening of the root).  Run at `NV α`
+    on arrays that hold the image of a non-empty tree `t0` (root and NIL row black, the NIL row holding the sentinel),
+    with `node_id` a fresh row and `value` the node `nn`, the program returns with arrays that hold the image of
+    `rbInsert S nn t0` (Model/ViewshedFix.lean) -- shape, colours, keys, gradients, stored maxima -- well linked, the old
+    rows plus `node_id`, `ret0` the root row, the NIL row unchanged in maximum and colour, the root black.
+    Composed with the model theorems: `rbInsert` is `leafInsert` followed by rotations and recolourings (`Rebal`), so it
+    holds exactly the old nodes plus `nn`, preserves `Rel` (BST, no overestimate below the root, node set = dummy +
+    active list) with the new cell added, and preserves "no overestimate anywhere" (`AugLe`). -/
+theorem generated_insert_is_model_insert (s : State (NV α)) (fuel n m : Nat) (hv : VS s n) (hm : VVal s m)
     (hrun : s.ctl = .run) (l : Sh) (i : Nat) (rr : Sh) (hL : Linked (s.ia "tree_nodes") n (-1) (.node l i rr))
     (hN : (Sh.node l i rr).idxs.Nodup) (hroot : s.ienv "root" = i) (nid : Nat) (hnid : nid + 1 < n)
     (hfresh : nid ∉ (Sh.node l i rr).idxs) (hid : s.ienv "node_id" = nid)
-    (hfuel : (Sh.node l i rr).height + 1 < fuel) (t0 : Viewshed.Tree α) (nn : Node α)
+    (hnil : nAt (s.ia "tree_nodes") (n - 1) 0 ≠ 0) (hblack : nAt (s.ia "tree_nodes") i 0 ≠ 0)
+    (hS : vAt (s.fa "tree_vals") (n - 1) 7 = smallest)
+    (hfuel : (Sh.node l i rr).height + 2 ≤ fuel) (t0 : Viewshed.Tree α) (nn : Node α)
     (habs : absT (s.fa "tree_vals") (s.ia "tree_nodes") (.node l i rr) = mapT emb t0) (hval : valNode s = mapN emb nn) :
-    let sh' := insShape (s.fa "tree_vals") (valAt s 0) (.node l i rr) nid
-    ∃ sP : State (NV α), Gen.IL.vsInsert.run s fuel = exec fuel insFixup sP ∧ sP.ctl = .run ∧
-      Linked (sP.ia "tree_nodes") n (-1) sh' ∧ sh'.idxs.Nodup ∧
-      absT (sP.fa "tree_vals") (sP.ia "tree_nodes") sh' = mapT emb (leafInsert nn t0) ∧
-      sP.ienv "inserted" = nid ∧
-      (∀ (S : α) (d : Node α) (st : List (Node α)), Rel S d t0 st → nn.key ≠ d.key → (∀ k ∈ st, k.key ≠ nn.key) →
-        Rel S d (leafInsert nn t0) (nn :: st)) := by
-  obtain ⟨sP, h1, h2, _, h4, h5, h6, h7, _, _⟩ :=
-    vsInsert_prefix_refines s fuel n m hv hm hrun l i rr hL hN hroot nid hnid hfresh hid hfuel
-  refine ⟨sP, h1, h2, h4, h5, ?_, h7, fun S d st hr hd hf => leaf_insert_preserves nn hr hd hf (Rebal.refl _)⟩
-  rw [h6, habs, hval, insCoreC_emb, (insCoreC_eq nn t0).1]
-  rfl
+    let r := Gen.IL.vsInsert.run s fuel
+    let t1 := rbInsert smallestK nn t0
+    r.ctl = .ret ∧ VS r n ∧ (∃ sh' : Sh, Linked (r.ia "tree_nodes") n (-1) sh' ∧ sh'.idxs.Nodup ∧
+        sh'.idxs.Perm (nid :: (Sh.node l i rr).idxs) ∧
+        absT (r.fa "tree_vals") (r.ia "tree_nodes") sh' = mapT emb t1 ∧ r.ienv "ret0" = sh'.ptr) ∧
+      vAt (r.fa "tree_vals") (n - 1) 7 = smallest ∧ nAt (r.ia "tree_nodes") (n - 1) 0 ≠ 0 ∧ isRed t1 = false ∧
+      Rebal smallestK (leafInsert nn t0) t1 ∧
+      (∀ k, k ∈ t1.toList ↔ k = nn ∨ k ∈ t0.toList) ∧
+      (∀ (d : Node α) (st : List (Node α)), Rel smallestK d t0 st → nn.key ≠ d.key → (∀ k ∈ st, k.key ≠ nn.key) →
+        Rel smallestK d t1 (nn :: st)) ∧
+      (AugLe smallestK t0 → AugLe smallestK t1) := by
+  intro r t1
+  obtain ⟨r1, r2, sh', r3, r4, r5, r6, r7, r8, r9, r10⟩ :=
+    vsInsert_model s fuel n m hv hm hrun l i rr hL hN hroot nid hnid hfresh hid hnil hblack hfuel smallestK
+      (by rw [hS, smallest_emb]) t0 nn habs hval
+  have hreb : Rebal smallestK (leafInsert nn t0) t1 := rbInsert_rebal smallestK nn t0
+  refine ⟨r1, r2, ⟨sh', r3, r4, r5, r6, r7⟩, by rw [r8, smallest_emb], r9, r10, hreb, fun k => ?_,
+    fun d st hr hd hf => leaf_insert_preserves nn hr hd hf hreb, fun ha => hreb.augLe (insCore_AugLe smallestK nn ha)⟩
+  rw [hreb.toList]
+  exact insCore_toList nn t0 k
 
 /-- **the generated `_delete_from_tree`, descent only** (PARTIAL: the splice, the loops L1 / L2 with the recomputations
     F1 / C of the stored maxima and the colour fixup -- `ILVs.delRest` -- are not covered): a key that is not in the tree
@@ -999,16 +1016,26 @@ def exStateIns [Trig ℚ] : State (NV ℚ) :=
     shp := fun a => if a = "tree_vals" then [5, 8] else if a = "tree_nodes" then [5, 4] else if a = "value" then [8] else [],
     ienv := fun v => if v = "node_id" then 3 else 0 }
 
-example [Trig ℚ] : ∃ sP : State (NV ℚ), Gen.IL.vsInsert.run exStateIns 4 = exec 4 insFixup sP ∧ sP.ctl = .run ∧
-    absT (sP.fa "tree_vals") (sP.ia "tree_nodes") (insShape exVals5 (valAt exStateIns 0) exShape 3) =
-      mapT emb (leafInsert ⟨4, 3, 3, 3, 0, 1, 2⟩ exTree) := by
-  obtain ⟨sP, h1, h2, _, _, h5, _⟩ := generated_insert_reaches_leaf_insert exStateIns 4 5 8
+/-- non-vacuity of `generated_insert_is_model_insert`: the key 4 goes below the red node 3 whose sibling 1 is red as
+    well -- the red-uncle case recolours both black and the root red, the root is blackened again -/
+example [Trig ℚ] :
+    (Gen.IL.vsInsert.run exStateIns 4).ctl = .ret ∧
+      ∃ sh' : Sh, absT ((Gen.IL.vsInsert.run exStateIns 4).fa "tree_vals") ((Gen.IL.vsInsert.run exStateIns 4).ia "tree_nodes") sh' =
+        mapT emb (rbInsert smallestK ⟨4, 3, 3, 3, 0, 1, 2⟩ exTree) ∧ (Gen.IL.vsInsert.run exStateIns 4).ienv "ret0" = sh'.ptr := by
+  obtain ⟨h1, _, ⟨sh', _, _, _, h5, h6⟩, _⟩ := generated_insert_is_model_insert exStateIns 4 5 8
     ⟨rfl, rfl, rfl, rfl, by decide⟩ ⟨rfl, rfl, by decide⟩ rfl (.node .nil 1 .nil) 0 (.node .nil 2 .nil)
-    (by simp [Linked, nAt, exStateIns, exNodes5, Sh.ptr]) (by decide) rfl 3 (by decide) (by decide) rfl (by decide)
+    (by simp [Linked, nAt, exStateIns, exNodes5, Sh.ptr]) (by decide) rfl 3 (by decide) (by decide) rfl
+    (by simp [nAt, exStateIns, exNodes5]) (by simp [nAt, exStateIns, exNodes5])
+    (by simp [vAt, exStateIns, exVals5, smallest]) (by decide)
     exTree ⟨4, 3, 3, 3, 0, 1, 2⟩
     (by simp [absT, nodeAt, vAt, nAt, mapT, mapN, emb, exStateIns, exVals5, exNodes5, exTree])
     (by simp [valNode, valAt, mapN, emb, exStateIns])
-  exact ⟨sP, h1, h2, h5⟩
+  exact ⟨h1, sh', h5, h6⟩
+
+example : rbInsert (smallestK : ℚ) ⟨4, 3, 3, 3, 0, 1, 2⟩ exTree =
+    .node (.node .nil ⟨1, 2, 2, 2, 0, 1, 2⟩ 2 false .nil) ⟨2, 1, 1, 1, 0, 1, 2⟩ 3 false
+      (.node .nil ⟨3, 0, 0, 0, 0, 1, 2⟩ 3 false (.node .nil ⟨4, 3, 3, 3, 0, 1, 2⟩ 3 true .nil)) := by
+  decide
 
 example [Trig ℚ] : (Gen.IL.vsDelete.run { exState with fenv := fun _ => some 7 } 4).ctl = .err "ValueError" := by
   refine (generated_delete_descent { exState with fenv := fun _ => some 7 } 4 4 ⟨rfl, rfl, rfl, rfl, by decide⟩ rfl exShape
